@@ -65,7 +65,7 @@ LEAN = dict(
         # the step sequences (hand-written closed forms) are the record model (C02/C03's `createPatch`, ...)
         "createPatchW_res", "commitPlainW_res", "commitMFW_res", "discardW_res", "closeW_res", "onDisk_of_inv",
         # the regenerated methods are the step sequences / the record model
-        "gen_constants", "gen_manifest_filepath", "gen_has_writable", "gen_expect_open", "gen_mode", "gen_expect_not_ro",
+        "gen_constants", "gen_manifest_ext", "gen_manifest_filepath", "gen_has_writable", "gen_expect_open", "gen_mode", "gen_expect_not_ro",
         "gen_ublock_last", "gen_set_ublock_last",
         "gen_ub_create_some", "gen_ub_create_none", "gen_new_container", "gen_create_patch", "gen_create_patch_model",
         "gen_delete_latest_container", "gen_discard_patch", "gen_discard_patch_model",
